@@ -10,6 +10,9 @@ import Zrnt.Shuffle.Spec
   model: the code-shaped whole-list model; spec: `compute_shuffled_index` evaluated at **every**
   position `k`, the expected lists being `out[π k] = L[k]` (shuffle) and `out[k] = L[π k]` (unshuffle).
 * `idx <n> <rounds> <seed>` — `PermuteIndex`/`UnpermuteIndex` at every index below `n`.
+* `par <workers> <repetitions> <n> <rounds> <seed>` — `ShuffleList`/`UnshuffleList` of `[0,n)` called from `workers`
+  goroutines simultaneously, worker `g` with `seed[0] ^= g`, each repeated; every worker must obtain the
+  sequential result every time (answer: the per-worker results).
 * `one <p|u> <rounds> <index> <n> <seed>` — one call, also outside the documented domain
   (`n = 0`, `index ≥ n`): there the spec column is `any`.
 Lists are answered as `<sha256 of the little-endian uint64 encoding>` and, up to 40 elements, in full. -/
@@ -64,6 +67,24 @@ def shuffleLine (line : String) : String :=
         | none => "any"
       m ++ " | " ++ s
     | _, _, _, _ => bad
+  | ["par", wS, repS, nS, rS, seedS] =>
+    -- the same list operations from `workers` goroutines at once: every worker must get the sequential result
+    match wS.toNat?, repS.toNat?, nS.toNat?, rS.toNat?, parseSeed seedS with
+    | some workers, some reps, some n, some rounds, some seed =>
+      if rounds > 255 ∨ n > 100000 ∨ workers = 0 ∨ workers > 64 ∨ reps = 0 ∨ reps > 100000 then bad else
+      let xs := Array.range n
+      let per (f : ByteArray → String) : String :=
+        "ok " ++ " ; ".intercalate ((List.range workers).map fun g =>
+          f (seed.set! 0 ((seed.get! 0) ^^^ UInt8.ofNat g)))
+      let m := per fun sd =>
+        let h := realHasher sd
+        "s=" ++ fmtList (shuffleList h rounds xs) ++ " u=" ++ fmtList (unshuffleList h rounds xs)
+      let sp := per fun sd =>
+        match specPerm rounds n sd with
+        | some π => "s=" ++ fmtList (scatter π xs) ++ " u=" ++ fmtList (π.map (fun p => xs[p]!))
+        | none => "any"
+      m ++ " | " ++ sp
+    | _, _, _, _, _ => bad
   | ["idx", nS, rS, seedS] =>
     match nS.toNat?, rS.toNat?, parseSeed seedS with
     | some n, some rounds, some seed =>
